@@ -244,7 +244,7 @@ def flush(ctx, cases, reqs, impls):
     for c, a, i in zip(cases, answers, impls):
         if c["fail"]:
             ctx.fail({k: c[k] for k in ("master", "home", "arg")}, c["fail"], finding="D12" if c["d12"] else None,
-                     model_violates=(a == i) if a is not None else None)
+                     model_violates=None if (a is None or a[0] in ('unsupported', 'parse-failed', 'type-failed')) else (a == i))
 
 
 def finding_still_fails(f):
